@@ -22,6 +22,15 @@ Sub-checks / violation keys (<c> = case name, e.g. "a_ani_sigma/kin")
   C04:reference_integral:<c>   N=4000 estimate outside the 5-sigma Monte-Carlo band of the population integral of L
                                (closed form for Gaussian lambda / kappa on a Gaussian Ddt, trapezoid quadrature otherwise)
   C04:error_scaling            Var over seeds at N vs 4N not in ratio ~4 (1/sqrt(N))
+  C04:draw_distribution:<c>    the realised parameters of the draws (recorded at draw_lens / draw_anisotropy / draw_los inside an N=4000
+                               evaluation, and 40000 further draws taken directly from the lens' own distribution objects) do not follow
+                               the DECLARED distribution: N(mean, sigma) [sigma*a_ani for GAUSSIAN_SCALED], truncated and renormalised to
+                               the interpolation range when the parameter is interpolated (out-of-range draws are re-drawn), GEV / tabulated
+                               PDF for the line of sight (Kolmogorov-Smirnov, p < 1e-7)
+  <c> ending in "/edge"        the population mean sits 0.4-1.2 sigma from an edge of the interpolation grid, so that 10-35 % of the raw
+                               draws are rejected and re-drawn (a_ani GAUSSIAN / GAUSSIAN_SCALED, beta_inf, gamma_in, log_m2l; joint/GOM/edge:
+                               a_ani scattered away from its edges while beta_inf re-draws trigger the joint re-draw); these cases run
+                               through the matrix, the population integral (truncated quadrature) and the draw-distribution check
   C04:holds_n_evals:<c>        scatter of ANOTHER line-of-sight population / no LOS on this lens: must stay 1 evaluation
   C04:inapplicable_changes_value:<c>  an inapplicable scatter changes the value / makes it seed dependent
   C04:inapplicable_scatter_costs_N         (KNOWN FINDING) inapplicable non-zero scatter costs N evaluations instead of 1
@@ -55,7 +64,8 @@ def cosmo0():
 
 APPLICABLE = ["lambda_mst_sigma/nonIFU", "lambda_ifu_sigma/IFU", "a_ani_sigma/kin", "beta_inf_sigma/GOM", "gamma_in_sigma/kin", "log_m2l_sigma/kin",
               "gamma_pl_sigma/global/kin", "gamma_pl_sigma/global/DSPL", "sigma_sne/mag", "los_global_sigma/GAUSSIAN", "los_global_sigma/GEV",
-              "los_individual/PDF", "los_individual/GEV", "joint/kin", "nonfinite_draws/DSPL"]
+              "los_individual/PDF", "los_individual/GEV", "joint/kin", "nonfinite_draws/DSPL",
+              "a_ani_sigma/kin/edge", "beta_inf_sigma/GOM/edge", "joint/GOM/edge", "gamma_in_sigma/kin/edge", "log_m2l_sigma/kin/edge"]
 INAPPLICABLE = ["lambda_mst_sigma/IFU", "lambda_ifu_sigma/nonIFU", "lambda_mst_sigma/nonIFU/dist_NONE", "a_ani_sigma/no_kin_scaling", "a_ani_sigma/dist_NONE",
                 "a_ani_sigma/not_sampled", "beta_inf_sigma/OM", "gamma_in_sigma/not_sampled", "log_m2l_sigma/not_sampled", "gamma_pl_sigma/not_global", "sigma_sne/nonmag"]
 KNOWN_IFU = ["lambda_ifu_sigma/IFU/mst_dist_NONE"]
@@ -145,6 +155,42 @@ def make_case(inp):
             lens.update(lambda_mst_distribution="GAUSSIAN", global_los_distribution=0, los_distributions=["GAUSSIAN"])
             klos = [dict(mean=0.02, sigma=0.0)]
             sig += [("kwargs_lens", "lambda_mst_sigma", s_lam), (("kwargs_los", 0), "sigma", 0.03)]
+    elif c in ("a_ani_sigma/kin/edge", "beta_inf_sigma/GOM/edge", "joint/GOM/edge"):
+        # population mean z = 0.4..1.2 sigma inside an edge of the interpolation grid: Phi(-z) = 34..11 % of the raw draws are re-drawn
+        model = "GOM" if c != "a_ani_sigma/kin/edge" else ["OM", "const", "GOM"][int(rng.integers(3))]
+        dist = ["GAUSSIAN", "GAUSSIAN_SCALED"][int(rng.integers(2))] if model != "const" else "GAUSSIAN"
+        if inp.get("aniso_dist"): model, dist = ("OM" if c == "a_ani_sigma/kin/edge" else "GOM"), inp["aniso_dist"]
+        names = ["a_ani", "beta_inf"] if model == "GOM" else ["a_ani"]
+        data(t, anisotropy_model=model, anisotropy_sampling=True, anisotropy_distribution=dist, **grid_for(rng, names, nk))
+        upper = bool(rng.random() < 0.5); z = float(rng.uniform(0.4, 1.2))
+        if c == "a_ani_sigma/kin/edge":
+            lo_, hi_ = float(AX["a_ani"][0]), float(AX["a_ani"][-1])
+            if dist == "GAUSSIAN_SCALED":
+                mean = float(rng.uniform(4.0, 4.7) if upper else rng.uniform(0.25, 0.6))
+                s_a = ((hi_ - mean) if upper else (mean - lo_)) / z / mean          # sigma = s_a * mean
+            else:
+                s_a = float(rng.uniform(0.1, 0.3)); mean = hi_ - z * s_a if upper else lo_ + z * s_a
+            kk = dict(a_ani=float(mean), a_ani_sigma=0.0)
+            if model == "GOM": kk.update(beta_inf=float(rng.uniform(0.35, 0.65)), beta_inf_sigma=0.0)
+            sig = [("kwargs_kin", "a_ani_sigma", float(s_a))]
+        else:
+            s_b = float(rng.uniform(0.05, 0.15)); a = float(rng.uniform(1.5, 3.5))
+            kk = dict(a_ani=a, a_ani_sigma=0.0, beta_inf=float(1 - z * s_b if upper else z * s_b), beta_inf_sigma=0.0)
+            sig = [("kwargs_kin", "beta_inf_sigma", s_b)]
+            if c == "joint/GOM/edge": sig.append(("kwargs_kin", "a_ani_sigma", float(rng.uniform(0.05, 0.25)) / (a if dist == "GAUSSIAN_SCALED" else 1.0)))
+    elif c in ("gamma_in_sigma/kin/edge", "log_m2l_sigma/kin/edge"):
+        two = bool(rng.random() < 0.5)
+        p = c.split("_sigma")[0]
+        names = ["gamma_in", "log_m2l"] if two else [p]
+        flags = {}
+        if "gamma_in" in names: flags.update(gamma_in_sampling=True, gamma_in_distribution="GAUSSIAN")
+        if "log_m2l" in names: flags.update(log_m2l_sampling=True, log_m2l_distribution="GAUSSIAN")
+        data(t, **flags, **grid_for(rng, names, nk))
+        kl.update(gamma_in=float(rng.uniform(0.9, 1.5)), gamma_in_sigma=0.0, log_m2l=float(rng.uniform(0.35, 0.65)), log_m2l_sigma=0.0)
+        upper = bool(rng.random() < 0.5); z = float(rng.uniform(0.4, 1.2))
+        s_p = float(rng.uniform(0.05, 0.2)) if p == "gamma_in" else float(rng.uniform(0.03, 0.1))
+        kl[p] = float(AX[p][-1] - z * s_p if upper else AX[p][0] + z * s_p)
+        sig = [("kwargs_lens", p + "_sigma", s_p)]
     elif c == "a_ani_sigma/no_kin_scaling":
         data(t, anisotropy_model="OM", anisotropy_sampling=True, anisotropy_distribution="GAUSSIAN")
         kk = dict(a_ani=2.0, a_ani_sigma=0.0); sig = [("kwargs_kin", "a_ani_sigma", 0.2)]
@@ -405,6 +451,114 @@ def run_reference(rec, inp):
                   "closed form E[L] for Gaussian lambda on a Gaussian Ddt", inp, dict(value=val, closed=float(closed), quadrature=float(np.log(I) + m)), "within the 5 sigma band")
 
 
+def declared_distributions(mc):
+    """[(site, name, cdf)] : the declared distribution of every scattered quantity of the case; site in lens / kin / los"""
+    from scipy.stats import norm, genextreme
+    lens = mc["lens"]; h = with_sigma(mc["hyper"], mc["sig"])
+    names = list(lens.get("kin_scaling_param_list") or [])
+
+    def gauss(mean, sd, nm=None):
+        lo, hi = (float(AX[nm][0]), float(AX[nm][-1])) if nm in names else (-np.inf, np.inf)    # re-drawn until inside the interpolated range
+        a, b = norm.cdf(lo, mean, sd), norm.cdf(hi, mean, sd)
+        return lambda x: np.clip((norm.cdf(x, mean, sd) - a) / (b - a), 0.0, 1.0)
+    out = []
+    kl, kk = h["kwargs_lens"], h["kwargs_kin"]
+    for blk, key, val in mc["sig"]:
+        if blk == "kwargs_lens":
+            if key == "lambda_mst_sigma" and not lens.get("mst_ifu") and lens.get("lambda_mst_distribution") == "GAUSSIAN":
+                out.append(("lens", "lambda_mst", gauss(kl["lambda_mst"], val)))
+            elif key == "lambda_ifu_sigma" and lens.get("mst_ifu") and lens.get("lambda_mst_distribution") == "GAUSSIAN":
+                out.append(("lens", "lambda_mst", gauss(kl["lambda_ifu"], val)))
+            elif key in ("gamma_in_sigma", "log_m2l_sigma") and lens.get(key[:-6] + "_sampling"):
+                out.append(("lens", key[:-6], gauss(kl[key[:-6]], val, key[:-6])))
+            elif key == "gamma_pl_sigma" and lens.get("gamma_pl_global_sampling") and lens.get("gamma_pl_global_dist") == "GAUSSIAN":
+                out.append(("lens", "gamma_pl", gauss(kl["gamma_pl_mean"], val)))
+        elif blk == "kwargs_kin":
+            dist = lens.get("anisotropy_distribution")
+            if not lens.get("anisotropy_sampling") or dist not in ("GAUSSIAN", "GAUSSIAN_SCALED"): continue
+            if key == "a_ani_sigma":
+                out.append(("kin", "a_ani", gauss(kk["a_ani"], val * (kk["a_ani"] if dist == "GAUSSIAN_SCALED" else 1.0), "a_ani")))
+            elif key == "beta_inf_sigma" and lens.get("anisotropy_model") == "GOM":
+                out.append(("kin", "beta_inf", gauss(kk["beta_inf"], val, "beta_inf")))
+        elif isinstance(blk, (tuple, list)):
+            k = blk[1]; g = lens.get("global_los_distribution", False)
+            if g is not False and int(g) == int(k):
+                e = h["kwargs_los"][k]
+                if lens["los_distributions"][k] == "GAUSSIAN": out.append(("los", "kappa_ext", gauss(e["mean"], e["sigma"])))
+                else: out.append(("los", "kappa_ext", genextreme(c=e["xi"], loc=e["mean"], scale=e["sigma"]).cdf))
+    ind = lens.get("los_distribution_individual")
+    if ind == "GEV":
+        ki = lens["kwargs_los_individual"]
+        out.append(("los", "kappa_ext", genextreme(c=ki["xi"], loc=ki["mean"], scale=ki["sigma"]).cdf))
+    elif ind == "PDF":
+        ki = lens["kwargs_los_individual"]; edges = np.asarray(ki["bin_edges"], dtype=float); pdf = np.asarray(ki["pdf_array"], dtype=float)
+        cum = np.concatenate([[0.0], np.cumsum(pdf / np.sum(pdf))])
+        out.append(("los", "kappa_ext", lambda x: np.interp(x, edges, cum)))       # uniform inside each bin
+    return out
+
+
+def run_draws(rec, inp):
+    """the draws follow the declared distributions: (a) the realised parameters recorded inside one N=4000 evaluation, (b) 40000 draws taken
+    directly from the lens' own distribution objects with the same hyper-parameters.  Kolmogorov-Smirnov against the declared CDF; p < 1e-7
+    (D > 0.046 at n=4000, > 0.0146 at n=40000) is far outside what a correct sampler produces, and a sampler that e.g. re-draws from a different
+    width after a rejection, ignores a truncation or draws a different family is off by D >~ 0.03."""
+    from hierarc.Likelihood.hierarchy_likelihood import LensLikelihood
+    from scipy.stats import kstest
+    c = inp["case"]; N = int(inp["N_arg"]); ND = int(inp.get("n_direct", 40000))
+    rec.case(inp, kind="draws/" + c)
+    try:
+        mc = make_case(inp); ll = LensLikelihood(**mc["lens"])
+        decl = declared_distributions(mc)
+        h = with_sigma(mc["hyper"], mc["sig"])
+    except Exception:
+        rec.error("draws case failed %s: %s" % (json.dumps(jsonable(inp)), traceback.format_exc(limit=3))); return
+    if not decl:
+        rec.error("draws case without a declared distribution: %s" % json.dumps(jsonable(inp))); return
+    taps = dict(lens=[], kin=[], los=[]); depth = dict(lens=0, kin=0)
+    ld, ad, los = ll._lens_distribution, ll._aniso_distribution, ll._los
+    o1, o2, o3 = ld.draw_lens, ad.draw_anisotropy, los.draw_los
+
+    def w1(*a, **k):
+        depth["lens"] += 1
+        try: r = o1(*a, **k)
+        finally: depth["lens"] -= 1
+        if depth["lens"] == 0: taps["lens"].append(dict(r))      # the library re-draws recursively: keep the accepted (outer) result
+        return r
+
+    def w2(*a, **k):
+        depth["kin"] += 1
+        try: r = o2(*a, **k)
+        finally: depth["kin"] -= 1
+        if depth["kin"] == 0: taps["kin"].append(dict(r))
+        return r
+
+    def w3(*a, **k):
+        r = o3(*a, **k); taps["los"].append(fscalar(r)); return r
+    ld.draw_lens, ad.draw_anisotropy, los.draw_los = w1, w2, w3
+    try:
+        np.random.seed(int(inp["seeds"][0]))
+        ll.lens_log_likelihood(cosmo0(), **copy.deepcopy(h))
+        ld.draw_lens, ad.draw_anisotropy, los.draw_los = o1, o2, o3
+        np.random.seed(int(inp["seeds"][1]))
+        direct = {}
+        sites = set(d[0] for d in decl)
+        if "lens" in sites: direct["lens"] = [ld.draw_lens(**h["kwargs_lens"]) for _ in range(ND)]
+        if "kin" in sites: direct["kin"] = [ad.draw_anisotropy(**h["kwargs_kin"]) for _ in range(ND)]
+        if "los" in sites: direct["los"] = np.atleast_1d(los.draw_los(h["kwargs_los"], size=ND))
+    except Exception as e:
+        rec.violation("C04:raises:" + c, "drawing raised", inp, repr(e)[:200], "draws from the declared distributions"); return
+    for site, nm, cdf in decl:
+        for how, src in (("evaluation", taps), ("direct", direct)):
+            x = np.asarray(src[site] if site == "los" else [r[nm] for r in src[site]], dtype=float)
+            n_req = N if how == "evaluation" else ND
+            res = kstest(x, cdf)
+            ok = len(x) == n_req and bool(np.all(np.isfinite(x))) and res.pvalue > 1e-7
+            rec.check(ok, "C04:draw_distribution:" + c, "realised %s of the draws (%s) does not follow the declared distribution" % (nm, how),
+                      dict(inp, parameter=nm, how=how, hyper=h, anisotropy=[mc["lens"].get("anisotropy_model"), mc["lens"].get("anisotropy_distribution")]),
+                      dict(n=len(x), ks_D=float(res.statistic), p=float(res.pvalue), sample_mean=float(np.mean(x)), sample_std=float(np.std(x)),
+                           sample_min=float(np.min(x)), sample_max=float(np.max(x))), "Kolmogorov-Smirnov p > 1e-7 against the declared CDF, n = %d" % n_req)
+
+
 def run_error_scaling(rec, inp):
     """Var over seeds of the estimator L_hat at N and 4N: ratio 4 (1/sqrt(N)).  Data centred on the prediction (no
     heavy tail); R=400 repeats: empirically (40 trials of R=300) the ratio is 4.0 +- 0.42, i.e. +-0.36 at R=400:
@@ -430,7 +584,8 @@ def run_error_scaling(rec, inp):
 
 def types_for(c):
     if c in ("a_ani_sigma/kin", "beta_inf_sigma/GOM", "joint/kin", "gamma_in_sigma/kin", "log_m2l_sigma/kin", "gamma_pl_sigma/global/kin",
-             "a_ani_sigma/dist_NONE", "beta_inf_sigma/OM"): return KIN_TYPES
+             "a_ani_sigma/dist_NONE", "beta_inf_sigma/OM", "a_ani_sigma/kin/edge", "beta_inf_sigma/GOM/edge", "joint/GOM/edge", "gamma_in_sigma/kin/edge",
+             "log_m2l_sigma/kin/edge"): return KIN_TYPES
     if c == "sigma_sne/mag": return MAG_TYPES
     if c == "sigma_sne/nonmag": return NON_MAG
     if c in ("gamma_pl_sigma/global/DSPL", "nonfinite_draws/DSPL"): return ["DSPL"]
@@ -460,6 +615,9 @@ def main():
         for k in ("seed", "sigma_factor"): inp.pop(k, None)
         if inp.get("mode") == "reference": rec.guard(run_reference, rec, inp)
         elif inp.get("mode") == "error_scaling": rec.guard(run_error_scaling, rec, inp)
+        elif inp.get("mode") == "draws":
+            for k in ("parameter", "how", "hyper", "anisotropy"): inp.pop(k, None)
+            rec.guard(run_draws, rec, inp)
         else: rec.guard(run_case, rec, inp)
         rec.write(args.out); return
     rng = rng_of(args.seed, 4)
@@ -474,7 +632,9 @@ def main():
     refs = [("lambda_mst_sigma/nonIFU", "DdtGaussian"), ("lambda_ifu_sigma/IFU", "DdtGaussian"), ("los_global_sigma/GAUSSIAN", "DdtGaussian"),
             ("a_ani_sigma/kin", "IFUKinCov", "GAUSSIAN"), ("a_ani_sigma/kin", "DdtGaussKin", "GAUSSIAN_SCALED"), ("gamma_in_sigma/kin", "IFUKinCov"), ("log_m2l_sigma/kin", "IFUKinCov"), ("gamma_pl_sigma/global/kin", "IFUKinCov"),
             ("sigma_sne/mag", "Mag"), ("beta_inf_sigma/GOM", "IFUKinCov"), ("gamma_pl_sigma/global/DSPL", "DSPL"), ("lambda_mst_sigma/nonIFU", "DdtLogNorm"),
-            ("sigma_sne/mag", "TDMag")]
+            ("sigma_sne/mag", "TDMag"),
+            ("a_ani_sigma/kin/edge", "IFUKinCov", "GAUSSIAN_SCALED"), ("a_ani_sigma/kin/edge", "DdtGaussKin", "GAUSSIAN"), ("beta_inf_sigma/GOM/edge", "IFUKinCov"),
+            ("gamma_in_sigma/kin/edge", "IFUKinCov"), ("log_m2l_sigma/kin/edge", "DdtGaussKin")]
     nref = len(refs) if args.tier == "quick" else len(refs) * 4
     order = rng.permutation(len(refs))
     for k in range(nref):
@@ -482,6 +642,14 @@ def main():
         more = dict(aniso_dist=rf[2]) if len(rf) > 2 else {}
         rec.guard(run_reference, rec, gen(rng, rf[0], t=rf[1], N=4000, good_fit=True, mode="reference", prior=False, **more))
     rec.guard(run_error_scaling, rec, dict(N_arg=10, seeds=[int(rng.integers(2 ** 30))], mode="error_scaling"))
+    # the draws follow the declared distributions (every scatter with a closed-form declared distribution, grid-edge cases twice as often)
+    drawc = [c for c in APPLICABLE if c not in ("sigma_sne/mag", "nonfinite_draws/DSPL")]
+    drawc += [(c, "GAUSSIAN_SCALED") for c in ("a_ani_sigma/kin/edge", "joint/GOM/edge", "a_ani_sigma/kin")]
+    for k in range(1 if args.tier == "quick" else 6):
+        for c in drawc:
+            more = {}
+            if isinstance(c, tuple): c, more = c[0], dict(aniso_dist=c[1])
+            rec.guard(run_draws, rec, gen(rng, c, N=4000, good_fit=True, mode="draws", prior=False, **more))
     # the matrix
     rounds = 14 if args.tier == "quick" else 400   # until the time budget
     for r in range(rounds):
